@@ -151,6 +151,31 @@ def rule_one_per_thread(ctx):
         src = itlen
         okl = src[0] == "LenOf" and strip(src[1])[0] == "field" and strip(src[1])[2] == "threads"
         ctx.check(okl, R, "iterates-dumper.threads", b.where(h), "the loop ranges over dumper.threads (%s)" % LA.show_len(src), "the loop ranges over %s" % LA.show_len(src))
+        # ... element for element: when the loop walks a COPY of the list, the copy must not be edited (swap/sort/remove) before or
+        # during the walk — get_thread_info_by_index(idx) indexes dumper.threads itself, so position i must be the same thread in both
+        clones = [(x, t2) for x, t2 in b.calls(lambda c: (c.short or "").split("::")[-1] == "clone") if strip(o.call_args(x)[0]) == ("field", ("param", 3), "threads")]
+        edited = []
+        for x, t2 in clones:
+            dest = t2.get("dest")
+            if not dest or dest["proj"]:
+                continue
+            holders = {dest["l"]}
+            changed = True
+            while changed:
+                changed = False
+                for blk in b.blocks:
+                    for st in blk["stmts"]:
+                        if st["k"] == "assign" and st["r"]["k"] == "use" and st["r"]["o"].get("k") == "move" and not st["r"]["o"]["p"]["proj"] and st["r"]["o"]["p"]["l"] in holders and not st["p"]["proj"] and st["p"]["l"] not in holders:
+                            holders.add(st["p"]["l"])
+                            changed = True
+            for bi2, blk in enumerate(b.blocks):
+                if blk["cleanup"]:
+                    continue
+                for si2, st in enumerate(blk["stmts"]):
+                    if st["k"] == "assign" and st["r"]["k"] in ("ref", "rawptr") and st["r"].get("bk", "mut") != "shared" and st["r"]["p"]["l"] in holders:
+                        edited.append(b.where(bi2, si2))
+        ctx.check(not edited, R, "copy-not-reordered", b.where(h), "the walked copy of the thread list is never edited (position i is the same thread as dumper.threads[i])",
+                  "the loop walks a copy of dumper.threads that is edited first (%s): ids come from the copy, registers from dumper.threads[idx] — entries get another thread's state" % ", ".join(edited[:3]))
         a = o.call_args(bi)
         idx = strip(a[3])
         elem = ("some", itexpr)
